@@ -347,10 +347,36 @@ def _guard_direction_ok(test, pol, cached_pred, param, kind):
     return None
 
 
+def _inline_locals(expr, func):
+    """replace local names that are bound exactly once (plain assignment) by their defining expression, so that
+    `bp = self.bpoints(); if cached == bp:` is read like `if cached == self.bpoints():`"""
+    import copy
+    once = {}
+    counts = {}
+    for n in walk_no_nested(func):
+        if isinstance(n, ast.Assign) and len(n.targets) == 1 and isinstance(n.targets[0], ast.Name):
+            counts[n.targets[0].id] = counts.get(n.targets[0].id, 0) + 1
+            once[n.targets[0].id] = n.value
+        elif isinstance(n, (ast.AugAssign, ast.For)) and isinstance(getattr(n, 'target', None), ast.Name):
+            counts[n.target.id] = counts.get(n.target.id, 0) + 2
+    args = {a.arg for a in func.args.args}
+    once = {k: v for k, v in once.items() if counts.get(k) == 1 and k not in args}
+
+    class T(ast.NodeTransformer):
+        def visit_Name(self, node):
+            if isinstance(node.ctx, ast.Load) and node.id in once:
+                return copy.deepcopy(once[node.id])
+            return node
+    e = copy.deepcopy(expr)
+    for _ in range(3):
+        e = T().visit(e)
+    return e
+
+
 def _conj_guards(stmt, func):
     """guards of stmt, with `and` conjunctions under positive polarity split into their operands"""
     out = []
-    for t, pol in guards_of(stmt, func):
+    for t, pol in [(_inline_locals(t0, func), p0) for t0, p0 in guards_of(stmt, func)]:
         if pol and isinstance(t, ast.BoolOp) and isinstance(t.op, ast.And):
             out.extend((v, True) for v in t.values)
         elif (not pol) and isinstance(t, ast.BoolOp) and isinstance(t.op, ast.Or):
